@@ -5,6 +5,7 @@
                                         check must exit 1 and name the edited construct
   ./vcheck selftest --silent [ids..]    behaviour-preserving variants: every listed check must exit 0
   ./vcheck selftest --seeded [ids..]    patches kept under /verif/seeded/<id>/patch.diff
+  ./vcheck selftest --refactors [ids..] behaviour-preserving refactorings under /verif/refactors/<id>/: no check may exit 1
 
 Scratch copies are hard-link trees under tempfile.mkdtemp() and are removed in a finally."""
 from __future__ import annotations
@@ -110,6 +111,26 @@ def load_seeded():
     return out
 
 
+def load_refactors(ids=None, all_checks=False):
+    """Independently written behaviour-preserving refactorings (refactors/<id>/): variants on which no check may report a violation."""
+    from . import props as _props
+    out = []
+    rd = VERIF / "refactors"
+    for d in sorted(rd.iterdir()) if rd.is_dir() else []:
+        mf = d / "meta.json"
+        if not mf.exists() or not (d / "patch.diff").exists() or (ids and d.name not in ids):
+            continue
+        m = json.loads(mf.read_text())
+        checks = list(_props.ALL) if all_checks else (m.get("checks") or list(_props.ALL))
+        lim = set(m.get("limits_tolerated") or {})
+        strict, tolerant = [c for c in checks if c not in lim], [c for c in checks if c in lim]
+        if strict:
+            out.append({"id": d.name, "patch": str(d / "patch.diff"), "checks": strict})
+        if tolerant:
+            out.append({"id": d.name + "+limits", "patch": str(d / "patch.diff"), "checks": tolerant, "allow_limit": True})
+    return out
+
+
 def main(argv) -> int:
     from .controls import run_controls
     from .corpus import MUTANTS, SILENT
@@ -148,6 +169,10 @@ def main(argv) -> int:
         return 0
     elif mode == "--seeded":
         todo, kind = [m for m in load_seeded() if not ids or m["id"] in ids], "mutant"
+    elif mode == "--refactors":
+        # independently written behaviour-preserving refactorings (refactors/<id>/patch.diff): no check may report a violation;
+        # an analysis limit (exit 2) is tolerated only for the checks the meta file lists, with the reason recorded there
+        todo, kind = load_refactors(ids, bool(os.environ.get("KVERIF_SILENT_ALL"))), "silent"
     else:
         print(__doc__)
         return 2
